@@ -606,14 +606,24 @@ func TestC20(t *testing.T) {
 		}
 		rec.Check(rt, "hex", c, oracleHex(c))
 	})
-	var unparseable error
+	// calibration: does the tolerant reader understand the output format at all?  Fixed small inputs covering every
+	// wire type, an expanded path and a strings path.  If not, the format changed wholesale and nothing can be
+	// judged (infrastructure).  Once it does, an entry the reader cannot read is an entry that does not carry its
+	// value the way every other entry does: a violation for that input.
+	for _, c := range calibrationDumps() {
+		if r := oracleDumpInProc(c); r.unparseable != nil {
+			t.Logf("HARNESS: protodump output could not be read by the tolerant reader: %v", r.unparseable)
+			fmt.Println("INFRA-UNPARSEABLE protodump output format is not understood by the reader")
+			t.FailNow()
+		}
+	}
 	ev.Rapid(t, ev.N(20000, 400000), 21, func(rt *rapid.T) {
 		c, mutated := genDumpCase(rt)
 		sanitizeStrings(c)
 		rec.Eval(1)
 		r := oracleDumpInProc(c)
-		if r.unparseable != nil && unparseable == nil {
-			unparseable = r.unparseable
+		if r.unparseable != nil && r.f == nil {
+			r.f = ev.Failf("C20/dump-entry-unreadable/inproc", "input %.64x (%d bytes) expand %v strings %v: an entry of the output cannot be read although the format is understood on the calibration inputs: %.600v", c.In, len(c.In), c.Expand, c.Strings, r.unparseable)
 		}
 		switch r.status {
 		case refOK:
@@ -635,11 +645,6 @@ func TestC20(t *testing.T) {
 		}
 		rec.Check(rt, "dump", c, r.f)
 	})
-	if unparseable != nil {
-		t.Logf("HARNESS: protodump output could not be read by the tolerant reader: %v", unparseable)
-		fmt.Println("INFRA-UNPARSEABLE protodump output format is not understood by the reader")
-		t.FailNow()
-	}
 	// the real binary, through its three input routes
 	if os.Getenv("VERIF_PROTODUMP_BIN") != "" {
 		for _, via := range []string{"file", "stdin-pipe", "stdin-file"} {
@@ -653,8 +658,8 @@ func TestC20(t *testing.T) {
 				rec.Eval(1)
 				rec.Class("dump-binary/" + via)
 				r := oracleDumpBinary(c, via)
-				if r.unparseable != nil {
-					rt.Fatalf("HARNESS unparseable: %v", r.unparseable)
+				if r.unparseable != nil && r.f == nil {
+					r.f = ev.Failf("C20/dump-entry-unreadable/"+via, "input %.64x expand %v strings %v: an entry of the binary's output cannot be read: %.600v", c.In, c.Expand, c.Strings, r.unparseable)
 				}
 				if len(c.Expand)+len(c.Strings) > 0 && hasLen(c.In) {
 					cj, _ := json.Marshal(c)
@@ -663,6 +668,27 @@ func TestC20(t *testing.T) {
 				rec.Check(rt, "dump-"+via, c, r.f)
 			})
 		}
+	}
+}
+
+// calibrationDumps: fixed well-formed inputs whose rendering the reader must understand.
+func calibrationDumps() []*DumpCase {
+	inner := wiregen.Encode(nil, []wiregen.WField{{Num: 1, WT: refwire.WTVarint, Varint: 5}, {Num: 2, WT: refwire.WTLen, Payload: []byte("hi")}})
+	fs := []wiregen.WField{
+		{Num: 1, WT: refwire.WTVarint, Varint: 150},
+		{Num: 2, WT: refwire.WTFixed32, Fixed: 7},
+		{Num: 3, WT: refwire.WTFixed64, Fixed: 9},
+		{Num: 4, WT: refwire.WTLen, Payload: []byte("text")},
+		{Num: 5, WT: refwire.WTLen, Payload: []byte{0, 1, 0xfe}},
+		{Num: 6, WT: refwire.WTLen, Payload: inner},
+		{Num: 7, WT: refwire.WTLen, Payload: []byte{}},
+	}
+	in := wiregen.Encode(nil, fs)
+	return []*DumpCase{
+		{In: in, Expand: []string{}, Strings: []string{}},
+		{In: in, Expand: []string{"6"}, Strings: []string{"4"}},
+		{In: in, Expand: []string{"6"}, Strings: []string{"4", "6.2"}},
+		{In: []byte{0x08, 0x01}, Expand: []string{}, Strings: []string{}},
 	}
 }
 
@@ -690,10 +716,22 @@ func TestReplay(t *testing.T) {
 			if err := json.Unmarshal(rp.Case, &c); err != nil {
 				return ev.Failf("C20/replay", "bad case: %v", err)
 			}
-			if rp.Test == "dump" {
-				return oracleDumpInProc(&c).f
+			// (replays only exist for cases found after the reader passed its calibration)
+			for _, cal := range calibrationDumps() {
+				if r := oracleDumpInProc(cal); r.unparseable != nil {
+					panic("harness: protodump output format is not understood by the reader")
+				}
 			}
-			return oracleDumpBinary(&c, strings.TrimPrefix(rp.Test, "dump-")).f
+			how := "inproc"
+			r := oracleDumpInProc(&c)
+			if rp.Test != "dump" {
+				how = strings.TrimPrefix(rp.Test, "dump-")
+				r = oracleDumpBinary(&c, how)
+			}
+			if r.f == nil && r.unparseable != nil {
+				return ev.Failf("C20/dump-entry-unreadable/"+how, "an entry of the output cannot be read: %.600v", r.unparseable)
+			}
+			return r.f
 		}
 		return ev.Failf("C20/replay", "unknown replay kind %s", rp.Test)
 	})
